@@ -24,11 +24,11 @@ def ensure_wt():
         r = sh(f"git -C /repo worktree add -q --detach {WT} HEAD")
         if r.returncode:
             sys.exit("cannot create worktree: " + r.stdout)
-    sh(f"git -C {WT} checkout -q -- . && git -C {WT} checkout -q --detach $(git -C /repo rev-parse HEAD)")
+    sh(f"git -C {WT} reset -q --hard && git -C {WT} checkout -q --detach $(git -C /repo rev-parse HEAD)")
 
 
 def apply(patch):
-    sh(f"git -C {WT} checkout -q -- .")
+    sh(f"git -C {WT} reset -q --hard")
     r = sh(f"git -C {WT} apply --3way {patch} || git -C {WT} apply {patch} || (cd {WT} && patch -p1 --fuzz=3 < {patch})")
     st = sh(f"git -C {WT} status --short").stdout
     conflict = any(l.startswith(("UU", "AA")) for l in st.splitlines())
@@ -99,7 +99,7 @@ def main():
                 ent.setdefault("cross", {})[other] = {"rc": r["rc"], "mechanisms": r["mechanisms"][:6]}
                 print("   cross", sid, other, "rc", r["rc"], r["mechanisms"][:3])
         json.dump(matrix, open(mpath, "w"), indent=1, sort_keys=True)
-    sh(f"git -C {WT} checkout -q -- .")
+    sh(f"git -C {WT} reset -q --hard")
     if not a.keep:
         sh(f"git -C /repo worktree remove --force {WT}")
 
